@@ -623,7 +623,7 @@ def judge(expect, st, out, tol):
         return ('non-student-facing-exception', '%s: %s escaped' % (type(out).__name__, out))
     got = from_impl(out)
     if expect == ERR:
-        return ('returned-where-undefined', 'returned %s where linear algebra defines no result' %
+        return ('returned-where-undefined', 'returned %s where the property demands a student-facing error (no linear-algebra value / refused operation)' %
                 (short(got) if got else repr(out)[:80]))
     if got is None or not finite(got):
         return ('wrong-value', 'returned %r' % (repr(out)[:80],))
@@ -1354,6 +1354,7 @@ def run(ctx):
         op_level(ctx, res, rng, rec)
         formula_level(ctx, res, rng, rec)
     grader_level(ctx, res, rng)
+    res.witnesses.sort(key=lambda w: w['code'] == FINDING_CODE)      # anything that is not the recorded defect is reported first
     res.distribution['witness_codes'] = {}
     for w in res.witnesses:
         res.distribution['witness_codes'][w['code']] = res.distribution['witness_codes'].get(w['code'], 0) + 1
